@@ -540,7 +540,7 @@ func init() {
 	}
 }
 
-const ruleC11 = "rapid generates concurrent programs (sequential setup + 2-8 goroutines x 2-10 operations released from a barrier), each executed repeatedly on a fresh SDK v1 or v2 client in a binary built with the Go race detector (GORACE=halt_on_error), two thirds of them with a generated pause plan (the n-th passage through a verif yield point inside the table operations sleeps 1.5 ms while the client lock is held, which puts the mutex into hand-off mode so that a lock dropped and re-taken inside an operation is interleaved): 'data' programs over a tiny key space of counter items (PutItem, conditional PutItem attribute_not_exists, UpdateItem ADD 1, GetItem, DeleteItem ALL_OLD, conditional DeleteItem) and 'catalogue' programs (CreateTable / DeleteTable / DescribeTable on two names, N racing CreateTable on one fresh name) whose invoke/return-stamped histories, completed by final reads, are checked for linearizability with porcupine against the sequential counter-item / table-catalogue specification (this subsumes 'N concurrent ADD-1 yield N' and 'exactly one of N racing conditional puts succeeds', both also generated as dedicated programs); 'failure' programs (writers and readers on the counter items beside goroutines that switch the emulated failure on and off and read DescribeTable's item count inside the window), checked against the specification extended by the switch: once EmulateFailure has returned, no write may land until it is switched off; 'native-race' programs (CreateTable racing with ActivateNativeInterpreter / SetInterpreter; afterwards all tables are in one interpreter mode); 'batch-failure' programs (BatchWriteItem calls of 2-25 puts with unique keys beside goroutines that switch the emulated internal-server failure on and off, always with a pause plan; afterwards every put is stored or was handed back as unprocessed, never both, never neither); 'shared-input' programs (several goroutines pass the very same prepared GetItemInput / QueryInput / ScanInput object to the client, beside writers); 'mixed' programs over every client method (including UpdateTable calls that carry attribute definitions only, and reads whose filter does not parse or whose index does not exist - the call fails or panics, is recovered, and the client must stay usable; CreateTable / DeleteTable / UpdateTable / DescribeTable, batch calls over one and two tables with and without ConsistentRead, TransactWriteItems, Query, Scan, ClearTable, failure toggling, GetNativeInterpreter / SetInterpreter / ActivateNativeInterpreter, data operations). Oracles: race detector report (the program being executed is recorded before it starts), runtime panic or fatal error, deadlock watchdog (a goroutine parked on a lock, condition or channel below a minidyn frame after 30 s), linearizability, SortedKeys/Data consistency and index-vs-table agreement afterwards. Non-trivial = program in which >= 2 goroutines touch the same key or the table catalogue; distinct = hash of the program."
+const ruleC11 = "rapid generates concurrent programs (sequential setup + 2-8 goroutines x 2-10 operations released from a barrier), each executed repeatedly on a fresh SDK v1 or v2 client in a binary built with the Go race detector (GORACE=halt_on_error), two thirds of them with a generated pause plan (the n-th passage through a verif yield point inside the table operations sleeps 1.5 ms while the client lock is held, which puts the mutex into hand-off mode so that a lock dropped and re-taken inside an operation is interleaved): 'data' programs over a tiny key space of counter items (a third of the 'data' programs on a table without any secondary index) (PutItem, conditional PutItem attribute_not_exists, UpdateItem ADD 1, GetItem, DeleteItem ALL_OLD, conditional DeleteItem) and 'catalogue' programs (CreateTable / DeleteTable / DescribeTable on two names, N racing CreateTable on one fresh name) whose invoke/return-stamped histories, completed by final reads, are checked for linearizability with porcupine against the sequential counter-item / table-catalogue specification (this subsumes 'N concurrent ADD-1 yield N' and 'exactly one of N racing conditional puts succeeds', both also generated as dedicated programs); 'failure' programs (writers and readers on the counter items beside goroutines that switch the emulated failure on and off and read DescribeTable's item count inside the window), checked against the specification extended by the switch: once EmulateFailure has returned, no write may land until it is switched off; 'native-race' programs (CreateTable racing with ActivateNativeInterpreter / SetInterpreter; afterwards all tables are in one interpreter mode); 'batch-failure' programs (BatchWriteItem calls of 2-25 puts with unique keys beside goroutines that switch the emulated internal-server failure on and off, always with a pause plan; afterwards every put is stored or was handed back as unprocessed, never both, never neither); 'shared-input' programs (several goroutines pass the very same prepared GetItemInput / QueryInput / ScanInput object to the client, beside writers); 'mixed' programs over every client method (including UpdateTable calls that carry attribute definitions only, and reads whose filter does not parse or whose index does not exist - the call fails or panics, is recovered, and the client must stay usable; CreateTable / DeleteTable / UpdateTable / DescribeTable, batch calls over one and two tables with and without ConsistentRead, TransactWriteItems, Query, Scan, ClearTable, failure toggling, GetNativeInterpreter / SetInterpreter / ActivateNativeInterpreter, data operations). Oracles: race detector report (the program being executed is recorded before it starts), runtime panic or fatal error, deadlock watchdog (a goroutine parked on a lock, condition or channel below a minidyn frame after 30 s), linearizability, SortedKeys/Data consistency and index-vs-table agreement afterwards. Non-trivial = program in which >= 2 goroutines touch the same key or the table catalogue; distinct = hash of the program."
 
 // c11Recorded: a failing program has been written to the replay file of this process.
 var c11Recorded bool
@@ -559,6 +559,13 @@ func TestC11(t *testing.T) {
 		mainSchema := sTable("tbl", false)
 		mainSchema.Attrs["g1"] = "S"
 		mainSchema.Indexes = []model.IndexSchema{{Name: "gidx", Hash: "g1", Global: true, NoThroughput: true}}
+		if c.Flavour == "data" && rapid.IntRange(0, 2).Draw(rt, "mainTableIndex") == 1 {
+			// a table without any secondary index (not for 'mixed' programs: a Scan that
+			// names an index the table does not have ends in a nil dereference inside the
+			// library, which no listed property covers)
+			mainSchema.Indexes = nil
+			st.Class("main-table-without-index")
+		}
 		c.Setup = []model.Op{{Kind: "CreateTable", Schema: mainSchema}}
 		keys := []string{"k1", "k2", "k3"}
 		nThreads := rapid.IntRange(2, 8).Draw(rt, "threads")
